@@ -92,6 +92,17 @@ CHECKS = {
         'step and at the end. Exploration.',
         'Values not serializable by design (local functions, opaque leaves) are not generated; NaN equals NaN in the comparison.',
         'DESIGN.md section 3 C05'),
+    'C11': (
+        'differential PBT against a brute-force reference enumerator; exhaustive enumeration of small DNASpec shapes + Hypothesis shapes beyond',
+        'Every DNASpec shape with <=2 decision points (k<=3, <=3 candidates, every distinct x sorted mode, conditional sub-space at the '
+        'first or last candidate) is enumerated in every run (thorough: also a slice of the <=3 decision point domain), larger shapes are '
+        'generated. For each: iter_dna count == space_size, strictly increasing, distinct, no successor after the last, first_dna, and '
+        'the flat-number set equals a reference written from the definition (itertools product filtered by distinct / sorted); members '
+        'are accepted and one-step corruptions (index +-1 / negative / = n, swap, duplicate, drop, extra, float/str/None values, extra or '
+        'missing child nodes) that are not members are rejected by from_numbers, validate and use_spec; random_dna returns members; '
+        'Sweeping proposes the iter_dna sequence and stops. Exploration with an exhaustive finite sub-domain.',
+        'Float/custom points: sampler/validator half only; spaces bounded to <=400 members (quick exhaustive: <=36); bool indices not used as corruptions (True == 1).',
+        'DESIGN.md section 3 C11'),
 }
 
 NOT_BUILT = 'check not built yet in this round (planned; see DESIGN.md section 3)'
